@@ -65,13 +65,26 @@ def gen_case(rng):
                 tags.add("attr:scalar-on-array")
         return out
     # states / algebraics
-    add("x", [n], "states", attrs=attrs_for([n]))
+    if rng.random() < 0.35:
+        # an output that is also a differentiated state
+        add("x", [n], "states", prefixes="output", attrs=attrs_for([n]))
+        tags.add("array-output-that-is-a-state")
+    else:
+        add("x", [n], "states", attrs=attrs_for([n]))
     eqs.append("  der(x) = -x;")
     tags.add("derivative-of-array")
     if rng.random() < 0.7:
         add("A", [n, m2], "alg_states", attrs=attrs_for([n, m2]))
         eqs.append("  for i in 1:%d loop\n%s  end for;" % (n, "".join("    A[i, %d] = x[i] * %d;\n" % (j + 1, j + 2) for j in range(m2))))
         tags.add("array-2d-non-square")
+    has_A = "A" in arrays
+    if has_A and rng.random() < 0.4:
+        # delay of a whole matrix expression (no loop)
+        if "pd" not in "".join(decls):
+            decls.append("  parameter Real pd = 1.5;")
+        add("D", [n, m2], "alg_states")
+        eqs.append("  D = delay(%s, pd);" % rng.choice(["A", "2 * A", "A + A"]))
+        tags.add("delayed-matrix-expression")
     if rng.random() < 0.6:
         add("y", [n], "alg_states", prefixes="output", attrs=attrs_for([n]))
         eqs.append("  y = 2 * x;")
@@ -100,7 +113,8 @@ def gen_case(rng):
         eqs.append("  for i in 1:%d loop\n%s  end for;" % (n, "".join("    z2[i, %d] = x[i] + %d;\n" % (j + 1, j) for j in range(m2))))
         tags.add("attr:symbolic-matrix-of-array-parameter")
     if rng.random() < 0.3:
-        decls.append("  parameter Real pd = 1.5;")
+        if "pd" not in "".join(decls):
+            decls.append("  parameter Real pd = 1.5;")
         add("dl", [n], "alg_states")
         eqs.append("  for i in 1:%d loop\n    dl[i] = delay(x[i] * 2, pd);\n  end for;" % n)
         tags.add("delayed-array-expression")
@@ -178,8 +192,7 @@ def check(ctx, text, arrays, tags, ext):
             for v in getattr(base, lst):
                 nm = v.symbol.name()
                 if nm.startswith("_pymoca_delay"):
-                    n_el = v.symbol.numel()
-                    exp += [("%s[%d]" % (nm, i + 1), (i,), nm) for i in range(n_el)] if n_el > 1 or True else [(nm, (), nm)]
+                    exp += [(a, (), nm) for a in delay_names(nm, v.symbol)]
                     continue
                 key = nm[4:-1] if lst == "der_states" else nm
                 if key in arrays:
@@ -189,7 +202,7 @@ def check(ctx, text, arrays, tags, ext):
             got = [v.symbol.name() for v in getattr(ex, lst)]
             ctx.monitor("scalar_names_compared", len(exp))
             # generated delay symbols are not Modelica variables: a vector may be indexed [i] or [i,1]
-            got = [g_.replace(",1]", "]") if g_.startswith("_pymoca_delay") else g_ for g_ in got]
+            got = [norm_delay(g_, base) for g_ in got]
             if got != [e_[0] for e_ in exp]:
                 ctx.violation("C18:%s:names:%s" % (feat, lst), "options %s: %s = %s, expected %s\n%s" % (oname, lst, got, [e_[0] for e_ in exp], text), dict(case, opts=opts))
                 return
@@ -233,9 +246,8 @@ def check(ctx, text, arrays, tags, ext):
             return
         exp_ds = []
         for dsn in base.delay_states:
-            nel = next(v.symbol.numel() for v in base.inputs if v.symbol.name() == dsn)
-            exp_ds += ["%s[%d]" % (dsn, i + 1) for i in range(nel)]
-        if sorted(d_.replace(",1]", "]") for d_ in ex.delay_states) != sorted(exp_ds):
+            exp_ds += delay_names(dsn, next(v.symbol for v in base.inputs if v.symbol.name() == dsn))
+        if sorted(norm_delay(d_, base) for d_ in ex.delay_states) != sorted(exp_ds):
             ctx.violation("C18:%s:delay-states" % feat, "options %s: delay_states %s, expected %s\n%s" % (oname, list(ex.delay_states), exp_ds, text), dict(case, opts=opts))
             return
         # residuals under the renaming
@@ -270,6 +282,46 @@ def check(ctx, text, arrays, tags, ext):
                 if len(fb) != len(fe) or not np.allclose(np.array(fb), np.array(fe), rtol=1e-9):
                     ctx.violation("C18:%s:delay-arguments" % feat, "options %s: delay arguments %s vs %s\n%s" % (oname, fe, fb, text), dict(case, opts=opts))
                     return
+                # pairing: the delay state named S[i,j] must delay element [i,j] of the expression S delays
+                bexpr = {dsn: np.asarray(db[2 * k0], dtype=float) for k0, dsn in enumerate(base.delay_states)}
+                for k1, dsn in enumerate(ex.delay_states):
+                    if "[" not in dsn:
+                        continue
+                    b0, ind = dsn[:dsn.index("[")], [int(t) for t in dsn[dsn.index("[") + 1:-1].split(",")]
+                    if b0 not in bexpr:
+                        continue
+                    arr = bexpr[b0]
+                    if arr.ndim == 2 and arr.shape[1] == 1 and len(ind) == 1:
+                        ind = ind + [1]
+                    try:
+                        want = float(arr[tuple(i - 1 for i in ind)])
+                    except IndexError:
+                        want = None
+                    got = float(np.asarray(de[2 * k1], dtype=float).reshape(-1)[0])
+                    ctx.monitor("delay_state_pairings_compared")
+                    if want is None or abs(got - want) > 1e-9 * max(1.0, abs(want)):
+                        ctx.violation("C18:%s:delay-state-paired-with-wrong-element" % feat,
+                                      "options %s: delay state %s delays %s, element %s of the unexpanded expression is %s\n%s" % (oname, dsn, got, ind, want, text),
+                                      dict(case, opts=opts))
+                        return
+
+
+def delay_names(nm, sym):
+    """generated delay symbols are not Modelica variables: a column is indexed [i] (or [i,1]), a matrix [i,j] row-major."""
+    r, c = sym.size1(), sym.size2()
+    if c == 1:
+        return ["%s[%d]" % (nm, i + 1) for i in range(r)]
+    return ["%s[%d,%d]" % (nm, i + 1, j + 1) for i in range(r) for j in range(c)]
+
+
+def norm_delay(name, base):
+    if not name.startswith("_pymoca_delay") or not name.endswith(",1]"):
+        return name
+    b0 = name[:name.index("[")]
+    sym = next((v.symbol for v in base.inputs if v.symbol.name() == b0), None)
+    if sym is not None and sym.size2() == 1:
+        return name[:-3] + "]"
+    return name
 
 
 def one(ctx, rng, k):
